@@ -216,6 +216,7 @@ def run(ctx, res):
             continue
         if any(t in st.tags for t in ("opaque-assert", "unknown-callee")):
             res.errors.append("imprecise trace: %r" % (st.tags,))
+            continue     # an imprecisely followed trace decides nothing
         kinds = [e[0] for e in st.eff]
         failed = [t for t in st.tags if t.startswith("failed:")]
         if visited == 0:
@@ -367,7 +368,15 @@ def run(ctx, res):
                     strs.append(a["v"]["str"])
     res.inventory["sync_message_strings"] = strs
     res.inventory["sync_message_fields"] = fields_used
-    okk = "state_sum" in fields_used
+    def mentions_field(x, name):
+        if isinstance(x, dict):
+            if x.get("k") == "field" and x.get("n") == name:
+                return True
+            return any(mentions_field(v, name) for v in x.values())
+        if isinstance(x, list):
+            return any(mentions_field(v, name) for v in x)
+        return False
+    okk = "state_sum" in fields_used or mentions_field(sm["blocks"], "state_sum")
     res.ob(okk)
     if not okk:
         if sm.get("argc", 1) > 1 or any(t_["k"] == "call" and (t_["callee"]["path"] or "") in facts.bodies for t_ in (bl_["term"] for bl_ in sm["blocks"])):
